@@ -85,7 +85,7 @@ def handle (l : Line) : Option (Except String String) :=
   | "life.binary" => some (opBinary l)
   | "life.metrics" => some (do   -- the metrics server: a stop-group member like a frontend; stopped means the port is closed
       let imm ← l.bool "immediate"
-      pure (s!"served={if imm then "-" else "1"} stopped=1 errs=0 listening=0\tmetrics"))
+      pure (s!"served={if imm then "-" else "1"} stopped=1 errs=0 free_at_stop=1 second_cycle=1 listening=0\tmetrics"))
   | "clock.stall" => some (pure "fresh_before=1 unix_consistent=1 held=1 caught_up_after=1\tclock")   -- the cached clock is the wall time of its last tick
   | "life.store_stop" => some (pure "stop_pending_while_pass_parked=1 stopped=1\tstore")   -- the store's Stop waits for its expiry pass
   | "udp.served" => some (opServed l)
